@@ -56,7 +56,87 @@ def mixed(rng, n):
     return bytes(out[:n])
 
 
-KINDS = [text, randbytes, periodic, repcodes, small_alphabet]
+def runs(rng, n):
+    """long constant runs (RLE blocks / RLE literals) separated by short noise"""
+    out = bytearray()
+    while len(out) < n:
+        out += bytes([rng.getrandbits(8)]) * rng.choice([1, 2, 3, 5, 40, 300, 5000, 140000, 300000])
+        if rng.random() < 0.5:
+            out += randbytes(rng, rng.randint(0, 6))
+    return bytes(out[:n])
+
+
+def tinymatches(rng, n):
+    """3-4 byte tokens from a small table, each followed by one fresh byte: maximises sequences per block (nbSeq > 0x7F00)"""
+    toks = [randbytes(rng, rng.choice([3, 3, 4])) for _ in range(rng.choice([8, 64, 500]))]
+    out = bytearray(b"".join(toks))
+    while len(out) < n:
+        out += rng.choice(toks)
+        out.append(rng.getrandbits(8))
+    return bytes(out[:n])
+
+
+def longcopies(rng, n):
+    """segments of varied compressibility with very long repeats (match lengths >= 64 KiB, block-crossing) and incompressible tails"""
+    out = bytearray()
+    while len(out) < n:
+        k = rng.random()
+        m = rng.choice([300, 5000, 20000, 70000, 131072, 140000])
+        if k < 0.35 or len(out) < 1000:
+            out += rng.choice([text, small_alphabet, repcodes, tinymatches])(rng, m)
+        elif k < 0.55:
+            out += randbytes(rng, rng.choice([100, 3000, 20000]))
+            if rng.random() < 0.5 and len(out) > 40:
+                st = rng.randrange(len(out) - 20); out += out[st:st + rng.randint(3, 12)]
+        else:
+            st = rng.randrange(max(1, len(out) - m))
+            out += out[st:st + m]
+    return bytes(out[:n])
+
+
+def blockstruct(rng, n):
+    """input laid out on the compressor's 128 KiB block grid: every block is a random arrangement of
+    {long copy of earlier data, text, noise}, often ending in an incompressible tail that contains one short match,
+    the next block then starts by re-using that match's distance (repeat-offset continuity across blocks)."""
+    BLK = 131072
+    out = bytearray(text(rng, rng.choice([BLK, BLK, 3000, 70000])))
+    lastdist = rng.randint(20, 400)
+    while len(out) < n:
+        room = BLK - (len(out) % BLK)
+        if room < 64:
+            out += randbytes(rng, room); continue
+        # block start: optionally re-use the previous short-match distance after a few fresh bytes
+        if rng.random() < 0.6 and len(out) > lastdist + 60:
+            out += randbytes(rng, rng.randint(0, 4))
+            ln = rng.randint(6, 60)
+            for _ in range(ln):
+                out.append(out[-lastdist])
+        room = BLK - (len(out) % BLK)
+        tail = rng.choice([0, 0, 300, 2500, 9000]) if room > 12000 else 0
+        body = room - tail
+        if rng.random() < 0.35 and len(out) > body + 10:
+            st = rng.randrange(len(out) - body); out += out[st:st + body]; body = 0      # the block is one long copy (+ tail)
+        while body > 0:
+            k = rng.random()
+            m = min(body, rng.choice([50, 2000, 30000, 70000, BLK]))
+            if k < 0.5 and len(out) > m + 10:
+                st = rng.randrange(len(out) - m); out += out[st:st + m]
+            elif k < 0.8:
+                out += text(rng, m)
+            else:
+                m = min(m, 3000); out += randbytes(rng, m)
+            body -= m
+        if tail:
+            t = bytearray(randbytes(rng, tail))
+            lastdist = rng.randint(20, min(400, tail - 20))
+            pos = rng.randint(lastdist, tail - 8)
+            ln = rng.randint(4, 8)
+            t[pos:pos + ln] = t[pos - lastdist:pos - lastdist + ln]
+            out += t
+    return bytes(out[:n])
+
+
+KINDS = [text, randbytes, periodic, repcodes, small_alphabet, runs, tinymatches]
 
 
 def gen(rng, maxn):
@@ -67,5 +147,5 @@ def gen(rng, maxn):
         n = rng.randint(0, min(maxn, 3000))
     else:
         n = rng.randint(0, maxn)
-    f = rng.choice(KINDS + [mixed, mixed, text])
+    f = rng.choice(KINDS + [mixed, mixed, text, longcopies])
     return f.__name__, f(rng, n)
